@@ -529,6 +529,13 @@ func (e *Engine) havocItem(st *State, env *SpecEnv, item string) {
 			st.havocKey(k)
 		}
 		return
+	case item == "lrucaches":
+		// the contents of every lru.Cache
+		lruDeclare()
+		for _, k := range lruKeys {
+			st.havocKey(k)
+		}
+		return
 	case item == "ghosts" || strings.HasPrefix(item, "ghosts except "):
 		// every declared ghost variable (model-internal G:$... ghosts are left alone), minus those excepted
 		for _, name := range e.ghostNames(item) {
